@@ -18,7 +18,9 @@ REQUIRED_THEOREMS = ["Ink.C15.parse_total", "Ink.C15.loadStory_no_panic", "Ink.C
 RULE = ("a case = one mutated document: structural mutations of the JSON value (delete / retype / duplicate / swap a "
         "node, numeric extremes, key renames), truncation (at every byte for small documents), nesting bombs, token "
         "damage and random bytes, applied to valid story documents (given to Story::new under both loaders) and to "
-        "saves taken at explored points (given to load_state, followed by reset and a lockstep with a fresh story); "
+        "saves taken at explored points, incl. multi-flow saves and saves taken inside running threads with every "
+        "thread's record damaged in turn (given to load_state; after a refusal: reset and a lockstep with a fresh "
+        "story; after an acceptance: the story is played on and must not crash); "
         "non-trivial when the input is not valid JSON for a story / save any more; distinct by input text")
 ASSUMPTIONS = ["inputs are valid Unicode text",
                "Story::new and load_state get 20 s; a story whose global declarations do not terminate is recognised by "
